@@ -4,9 +4,11 @@
     PolAdvQc.v.  [F] is any field with the operations [K : sp_ops F]; where an order or ring law is
     needed the hypothesis [sp_laws K] is stated (it holds for the executed instance: spq_laws).
 
-    Not proved here (see the evidence, uncovered_clauses): rigid rotation for omega r^2/2 (tested
-    exactly), third-order agreement of the two schemes (asymptotic).  Refuted: termination of the
-    implicit iteration for arbitrary potentials (last theorem). *)
+    Not proved here (see the evidence, uncovered_clauses): third-order agreement of the two schemes
+    (asymptotic); that a spline space of degree >= 2 reproduces omega r^2/2 (the rigid-rotation
+    theorems take d_r phi = omega r, d_theta phi = 0 as facts about the evaluator; tested exactly).
+    Refuted: termination of the implicit iteration for arbitrary potentials
+    (pol_impl_terminates_refuted). *)
 From Coq Require Import List Arith ZArith QArith Qcanon Bool.
 Import ListNotations.
 From PGV Require Import SplineModel SplineTheory SplineQc InterpModel InterpTheory PolAdvModel PolAdvTheory PolAdvConst PolAdvQc.
